@@ -17,7 +17,7 @@ from fsic.core import BaseLinker, BaseModel
 
 from .. import refsolve
 from ..core.observe import observe, diff_obs, canon
-from ..core.runner import Acc, guard, CaseTimeout
+from ..core.runner import Acc, guard, CaseTimeout, robust
 from . import c02
 
 ID = 'C08'
@@ -102,6 +102,7 @@ def make(nsub, scripts, tol, sel_actors):
     return lk, subs
 
 
+@robust()
 def run_scripted_case(case):
     nsub, sel, min_iter, max_iter = case['nsub'], case['sel'], case['min_iter'], case['max_iter']
     failures, tol, scripts = case['failures'], case['tol'], case['scripts']
@@ -228,13 +229,19 @@ def run_scripted(block, tier, acc):
 # --------------------------------------------------------------------------- bare-model law
 
 
+@robust()
 def run_bare_case(case):
     i, dv = case['i'], case['dv']
-    kw = dict(min_iter=case['min_iter'], max_iter=case['max_iter'], tol=case['tol'], failures='ignore')
+    kw = dict(min_iter=case['min_iter'], max_iter=case['max_iter'], tol=case['tol'], failures='ignore', offset=case.get('offset', 0))
     m = c02.cat_instance(i, dv)
     w = c02.cat_instance(i, dv)
     lk = BaseLinker({'m': w})
     t = case['t']
+    if case.get('pre') == 'one-pass':
+        # pre-history: the period already holds the result of one pass from the same starting point
+        pk = dict(kw, max_iter=1, min_iter=0)
+        refsolve.call_outcome(m.solve_t, t, **pk)
+        refsolve.call_outcome(lk.solve_t, t, **pk)
     rm = refsolve.call_outcome(m.solve_t, t, **kw)[:2]
     rl = refsolve.call_outcome(lk.solve_t, t, **kw)[:2]
     out = []
@@ -261,13 +268,15 @@ def run_bare(block, tier, acc):
                     continue
                 for tol in (1e-10, 1e-6, 1e-3, 0.5, 2.0):
                     for t in (2, -3):
-                        case = dict(kind='bare', i=i, dv=dv, min_iter=min_iter, max_iter=max_iter, tol=tol, t=t, script=c02.CATALOGUE[i])
-                        acc.evaluations += 1
-                        acc.transitions += 2
-                        acc.traces += 1
-                        acc.nontrivial += 1
-                        for key, exp, obs, what in run_bare_case(case):
-                            acc.violation(key + (':max_iter=0' if max_iter == 0 else ''), case, exp, obs, what)
+                        for offset, pre in ((0, None), (-1, None), (1, None), (-1, 'one-pass'), (0, 'one-pass')):
+                            case = dict(kind='bare', i=i, dv=dv, min_iter=min_iter, max_iter=max_iter, tol=tol, t=t, offset=offset, pre=pre,
+                                        script=c02.CATALOGUE[i])
+                            acc.evaluations += 1
+                            acc.transitions += 2
+                            acc.traces += 1
+                            acc.nontrivial += 1
+                            for key, exp, obs, what in run_bare_case(case):
+                                acc.violation(key + (':max_iter=0' if max_iter == 0 else '') + (':offset' if offset else ''), case, exp, obs, what)
 
 
 # --------------------------------------------------------------------------- construction rules, offset, solve()
@@ -279,6 +288,7 @@ def lagged_class(lags, leads):
         _evaluate=lambda self, t, **kw: None))
 
 
+@robust()
 def run_construct_case(case):
     specs, n = case['specs'], case['n']
     out = []
@@ -349,6 +359,7 @@ class OffLk(BaseLinker):
         self.__dict__.setdefault('seen', []).append((float(self._L[t]), float(self._Z[t])))
 
 
+@robust()
 def run_offset_case(case):
     t, offset, n = case['t'], case['offset'], 5
     subs = {k: OffSub(range(n), A=[10.0 * (j + 1) + i for i in range(n)], X=[100.0 * (j + 1) + i for i in range(n)]) for j, k in enumerate('ab')}
@@ -393,6 +404,7 @@ def run_offset(acc, tier):
                     acc.violation(key, case, exp, obs, what)
 
 
+@robust()
 def run_solve_case(case):
     """linker.solve() == loop of linker.solve_t over the default / chosen range."""
     nsub = 2
